@@ -30,8 +30,8 @@ LEVEL_NOTE = "Trusted: the from-scratch builders as reference; tolerance 1e-14 a
 
 def budget(tier):
     if tier == "quick":
-        return dict(max_examples=250, workers=4, time_s=170, min_cases=80)
-    return dict(max_examples=8000, workers=16, time_s=1200, min_cases=160)
+        return dict(max_examples=900, workers=8, time_s=170, min_cases=200)
+    return dict(max_examples=50000, workers=16, time_s=1200, min_cases=400)
 
 
 @st.composite
